@@ -1,7 +1,12 @@
 use log;
 use std::sync::atomic::Ordering;
 use std::sync::Arc;
+#[cfg(not(nundb_verif))]
 use std::{thread, time};
+#[cfg(nundb_verif)]
+use crate::verif_hooks::thread;
+#[cfg(nundb_verif)]
+use std::time;
 
 use crate::bo::*;
 use crate::configuration::NUN_ELECTION_TIMEOUT;
